@@ -78,4 +78,4 @@ where
 
 #[cfg(all(transparencies_stretto_verif, any(kani, test)))]
 #[path = "/verif/harness/h_ring.rs"]
-mod verif_harness;
+pub(crate) mod verif_harness;
